@@ -478,6 +478,11 @@ func (a *PatternArg) Parse() error {
 	for k, v := range patternReplacements {
 		s = strings.Replace(s, k, v, -1)
 	}
+	// The pattern has to be a regexp of its own: the parentheses added
+	// below must not pair up with unbalanced ones of the pattern ("a)(b").
+	if _, err := regexp.Compile(s); err != nil {
+		return err
+	}
 	s = "^(" + s + ")$"
 	re, err := regexp.Compile(s)
 	if err != nil {
